@@ -12,6 +12,24 @@ CHECKS = {
  "C15": dict(engine="E-SEQ + E-LOOM", technique="explicit-state search (stateright) over operation histories of the real cache + loom exploration of all lock-acquisition interleavings (preemption-bounded) of thread programs on the real SharedCache",
    text="Sequential: all histories over 3 names x 2 types, re-inserts with new TTLs, lookups hit/miss/ANY, prunes, clock advances at cache sizes {1,2,3} to depth 5 (quick) / 7 (thorough); after every prune: no expired record left, size <= configured, reported (remaining, expired, evicted) true, whole names evicted, only while over size, never a name certainly used later than a survivor; after every operation the structural invariants and count == distinct entries. Concurrent: loom explores every interleaving within preemption bound 2 (quick) / 3 (thorough) of 4-5 three-thread programs (upsert || insert_all || prune, writers of one name || prune with expired pre-state, writer || readers, two pruners || writer) on the real cache through the mutex hook; invariants, count equality and an exact final prune on every schedule.",
    note="Trusted: reference in cachemodel.rs; the mutex wrapper hook (every real lock acquisition passes through a loom semaphore); loom's bounded DPOR. 3 model threads, not 8: each cache operation is a single critical section. A watchdog turns an operation that does not return within 20 s into a violation.", ref="6 C15"),
+ "C01": dict(engine="E-NET", technique="exhaustive enumeration of configurations x cache pre-states x questions x modes, each executed on the real dns_resolver::resolve under the transport/clock hooks (choice-point DFS over candidate orders), judged by a flat-list reference lookup of the most specific local zone",
+   text="8 local configurations (authoritative a.ex. with aliases into 4 kinds of target, delegation, wildcard, ENT, apex NS; optional nested zone, optional less specific authoritative zone and non-authoritative overrides/hosts/blocklist/wildcard data that contradict it) x every subset of <= 2 (quick) / 3 (thorough) of 10 conflicting cache entries x 19 names x 6 types (incl. ANY) x local-only / recursive / forwarding, against an upstream world holding yet other data: authoritative answers equal the zone's own lookup and carry its SOA, no upstream contact, overrides exact per (name,type), name errors only from an authoritative zone, nothing foreign about names a zone owns.",
+   note="Trusted: refzone.rs lookup, the mock upstream (net.rs), transport/clock hooks. Menus, not arbitrary zones. D3/D6 as in DESIGN.", ref="6 C01"),
+ "C06": dict(engine="E-NET + wrapper", technique="exhaustive enumeration of adversarial replies (subsets of a record menu x section placement) through the real validate_nameserver_response and through full resolve() runs with every exchange position substituted (deviation bound 1), all candidate orders; allowed-set oracle",
+   text="Every reply of <= 3 (quick) / 4 (thorough) records of an 18-record adversarial menu, each in any section, x 6 question types x 4 delegation depths through the real validator (wrapper hook); every reply of <= 2/3 records substituted at every upstream exchange position of a full resolve (cache and answer inspected afterwards); 13 header defects x 4 poisonous payloads x every position compared with the dropped-exchange run.",
+   note="Trusted: the allowed() oracle in c06.rs (sections not distinguished), mock transport, hooks.", ref="6 C06"),
+ "C07": dict(engine="E-NET", technique="choice-point DFS (all candidate-nameserver orders) of the real recursive resolver over every generated universe x question history, answers compared with the universe's own truth",
+   text="Every generated universe (delegation depth 1..3 quick / 1..5 thorough; per-level nameserver naming style in-zone+glue / in-parent / sibling-zone-without-glue, all assignments up to depth 2/3; 1..3 nameservers; with additional data or in-reply CNAME chasing) x ~30 questions alone and as ordered pairs sharing one cache with the clock advanced by 0 or past the short TTL x every candidate order: the answer is exactly the alias chain + record set (or the denying zone's SOA) the authoritative servers hold; per question the zones asked get strictly deeper; only known servers are contacted.",
+   note="Trusted: mock servers + truth() in net.rs (reference lookup shared with C02), universe generator. Consistent universes, one address per family per host.", ref="6 C07"),
+ "C08": dict(engine="E-NET", category="fault_enumeration", technique="deviation-bounded choice-point DFS: every assignment of <= k faults from a 26-fault alphabet to the exchange positions of a resolution on tokio's paused clock, all candidate orders, child processes with 2 MiB stacks",
+   text="Per scenario (glueless / glued / dual-stack universes x recursive with 4 protocol modes and forwarding x questions; plus 3..9 glueless nameservers behind a silent server for the 60 s cap): every placement of <= 1 (quick) / 2-3 (thorough) faults (silence, delays 4.9..70 s, garbage, truncation, wrong ID, QR=0, TC, error rcodes, altered question, empty reply, same-depth / upward / unresolvable referrals, alias self-loop and 2-cycle, foreign-SOA NXDOMAIN, I/O error): the resolution returns, within 60 s of virtual time, each exchange within 5 s, no panic or process death, and every returned record was supplied by some reply or the hints.",
+   note="Trusted: tokio paused clock semantics, transport hook (timeouts and TCP fallback are the unmodified code above it), mock servers. A child process that dies or stalls is re-run in trace mode and reported as a violation.", ref="6 C08"),
+ "C10": dict(engine="E-NET", technique="exhaustive enumeration of alias graphs x source assignments x modes on the real resolver (child processes with 2 MiB stacks)",
+   text="Every straight alias chain of 0..4 (quick) / 0..6 (thorough) links with every assignment of nodes to {authoritative zone, non-authoritative zone, cache, upstream} x final target {has type, other type, missing} x upstream replies {one link, chained}; chains of 7..40 links; all cycle shapes <= 4 nodes in every source assignment; a cached alias contradicting the real one; x A/TXT/CNAME/ANY x local/recursive/forwarding: chain order, no alias twice, only asked-type records of the final target, sound records, whole reachable chain, termination within budget, no stack overflow.",
+   note="Trusted: graph model in c10.rs; D5/D7; completeness only for what the mode can reach.", ref="6 C10"),
+ "C18": dict(engine="E-NET", technique="exhaustive enumeration of address-family assignments x naming styles x histories x protocol modes x ports on the real resolver; oracle on the recorded exchange log",
+   text="Every universe of depth 1..2 whose root/level/sibling servers are v4-only / v6-only / dual (all assignments) x naming style per level x additional on/off x 5 histories (incl. warm cache, expiry) x 4 protocol modes x 4 ports x forwarding x candidate orders: destination families, no non-preferred address while a preferred one is held (cache content recorded at exchange time), preferred family asked first, configured port, forwarder only.",
+   note="Trusted: mock transport log, cache snapshot hook. One address per family per host.", ref="6 C18"),
 }
 
 PENDING_REASON = "check not built yet in this round (planned engine in DESIGN.md section 6); no claim is made"
